@@ -101,7 +101,10 @@ pub fn serve(raw: UnixStream, s: SrvCfg, acc_key: Vec<u8>, rawlog: Arc<Mutex<Vec
                 25 => {
                     sdrq += 1;
                     if sdrq == 1 {
-                        let lf = refsrv::mcs_sdin(1003, &refsrv::license_valid(&p)); log.lic = lf[7..].to_vec(); ans.extend(lf);
+                        // the licence and the demand-active travel in separate writes (separate TLS records), as do the
+                        // four finalization PDUs below: a client that waits on the socket between two reads finds each
+                        let lf = refsrv::mcs_sdin(1003, &refsrv::license_valid(&p)); log.lic = lf[7..].to_vec();
+                        if !write_all(&mut tls, &lf) { break; }
                         let da = refsrv::mcs_sdin(1003, &refsrv::demand_active(s.share, &s.source, &s.caps));
                         log.srv_msgs.push(da[7..].to_vec());
                         ans.extend(da);
@@ -113,7 +116,7 @@ pub fn serve(raw: UnixStream, s: SrvCfg, acc_key: Vec<u8>, rawlog: Arc<Mutex<Vec
                             for b in &[refsrv::synchronize(cur_share, 1002), refsrv::control(cur_share, 4, 0, 0), refsrv::control(cur_share, 2, s.uid, 0x03ea), refsrv::font_map(cur_share)] {
                                 let fr = refsrv::mcs_sdin(1003, b);
                                 log.srv_msgs.push(fr[7..].to_vec());
-                                ans.extend(fr);
+                                if !write_all(&mut tls, &fr) { break; }
                             }
                             // a second activation with a new share id (deactivate-all, demand-active)
                             if let (Some(ns), false) = (s.reactivate.map(|x| if x == 0 { s.share } else { x }), reactivated) {
